@@ -651,4 +651,10 @@ def handwritten():
     P.append((("case", False, ((None, (lit("S"),), (("set", "n", ("num", 1)),)), (None, (lit("M"),), (("set", "n", ("num", 0)),)))),
               ("loop", "recs", (("loop", "chars", (("match", AB), ("if", ((("bin", "==", ("var", "n"), ("num", 1)), (("break", "chars"),)),), None))), ("set", "m", ("bin", "+", ("var", "m"), ("num", 1)))))))
     P.append((("loop", "recs", (("loop", "chars", (("append", "s", AB), ("if", ((("bin", ">", ("len", "s"), ("num", 1)), (("break", "chars"),)),), None))), ("hook", "h"), ("delete", "s"))),))
+    DG = ("re", RX_ATOMS["[0-3]"])
+    P.append((("loop", None, (("match", ("re", RX_ATOMS["."])), ("if", ((("bin", "==", ("var", "n"), ("num", 1)), (("yield", "Y"),)),), None))),))
+    P.append((("set", "n", ("num", 1)), ("loop", None, (("match", AB), ("if", ((("bin", "==", ("var", "n"), ("num", 1)), (("yield", "Y"),)),), (("hook", "h"),)), ("set", "n", ("num", 0))))))
+    P.append((("match", lit("k")), ("optional", (("loop", None, (("match", DG), ("yield", "Y"))),))))
+    P.append((("match", lit("k")), ("optional", (("loop", None, (("match", DG), ("yield", "Y"), ("optional", (("match", lit(";")), ("break", None))))),)), ("match", lit("z")), ("yield", "Z")))
+    P.append((("loop", None, (("match", AB), ("if", ((("bin", "==", ("var", "n"), ("num", 0)), (("set", "n", ("num", 1)), ("hook", "h"))),), (("yield", "Y"), ("set", "n", ("num", 0)))))),))
     return P
